@@ -18,6 +18,9 @@ package centrifuge
 //   pub k v ep d                                 SharedPollPublish
 //   rvk k                                        SharedPollRevokeKeys(all users)
 //   unsub c | close c
+//   bgpub k v ep d                               SharedPollPublish whose delivery parks inside keyedWritePublication (phase 1 done)
+//   rel                                          the parked delivery resumes (phase 3)
+//   trkd c k v | tcb                             track with the OnTrack verdict deferred | the oldest verdict arrives
 // Output: per connection the frames written since the previous line:
 //   c1[R:k=v:F:d …  k=v:F:d  k=v:D:d|!  k=x  unsub:code  disc:code] …  st=k:ver:nb:dataid,…   (manager entries)
 // For a delta push the harness applies the real fossil patch to the bytes that connection holds for the key
@@ -157,6 +160,16 @@ type verifC25Scn struct {
 	conns  map[string]*verifC25Conn
 	order  []string
 	closed []*verifC25Conn
+	// gate inside keyedWritePublication (GetChannelBatchConfig runs between its optimistic check and the
+	// re-check under c.mu): when armed, the first call parks until released
+	armed    bool
+	parked   bool
+	gateCh   chan struct{}
+	bgDone   chan struct{}
+	// asynchronous OnTrack: verdict callbacks kept until `tcb`
+	deferTrack bool
+	trackCbs   []TrackCallback
+	trackDrop  []func()
 }
 
 // payload bytes of a publication as the SDK would see them: on delta channels (JSON) the data is a JSON string.
@@ -444,6 +457,73 @@ func (s *verifC25Scn) op(f []string) (res string) {
 			return "bad-op"
 		}
 		s.node.sharedPollManager.SharedPollRevokeKeys(verifC25Ch, []string{f[1]}, nil, nil)
+	case "bgpub":
+		// SharedPollPublish on its own goroutine; the delivery to the key's only subscriber parks between
+		// phase 1 and phase 3 of keyedWritePublication until `rel`
+		if len(f) != 5 || s.parked {
+			return "bad-op"
+		}
+		if s.node.config.SharedPoll.GetSharedPollChannelOptions != nil {
+			if o, _ := s.node.config.SharedPoll.GetSharedPollChannelOptions(verifC25Ch); o.isVersionless() {
+				return "bad-op"
+			}
+		}
+		v, err := strconv.ParseUint(f[2], 10, 64)
+		if err != nil {
+			return "bad-op"
+		}
+		if hub := s.node.keyedManager.getHub(verifC25Ch); hub != nil && hub.subscriberCount(f[1]) > 1 {
+			return "bad-op"
+		}
+		ep := f[3]
+		if ep == "-" {
+			ep = ""
+		}
+		s.armed, s.gateCh, s.bgDone = true, make(chan struct{}), make(chan struct{})
+		done := s.bgDone
+		go func() {
+			defer close(done)
+			_ = s.node.SharedPollPublish(context.Background(), verifC25Ch, f[1], v, ep, verifC25Data(f[4]))
+		}()
+		synctest.Wait()
+		s.armed = false
+	case "rel":
+		if s.parked {
+			close(s.gateCh)
+			<-s.bgDone
+			s.parked = false
+		}
+	case "trkd":
+		if len(f) != 4 {
+			return "bad-op"
+		}
+		c, ok := s.conns[f[1]]
+		v, err := strconv.ParseUint(f[3], 10, 64)
+		if !ok || err != nil {
+			return "bad-op"
+		}
+		// the SDK gives up the bytes it holds (version 0) only when the track takes effect
+		if v == 0 {
+			s.trackDrop = append(s.trackDrop, func() { delete(c.held, f[2]) })
+		} else {
+			s.trackDrop = append(s.trackDrop, func() {})
+		}
+		c.cmdID++
+		s.deferTrack = true
+		c.client.HandleCommand(&protocol.Command{Id: c.cmdID, SubRefresh: &protocol.SubRefreshRequest{Channel: verifC25Ch, Type: typeTrack,
+			Track: []*protocol.TrackBatch{{Items: []*protocol.KeyedItem{{Key: f[2], Version: v}}}}}}, 0)
+		s.deferTrack = false
+	case "tcb":
+		if len(s.trackCbs) == 0 {
+			return "bad-op"
+		}
+		cb := s.trackCbs[0]
+		s.trackCbs = s.trackCbs[1:]
+		if len(s.trackDrop) > 0 {
+			s.trackDrop[0]()
+			s.trackDrop = s.trackDrop[1:]
+		}
+		cb(TrackReply{}, nil)
 	default:
 		return "bad-op"
 	}
@@ -471,8 +551,17 @@ func verifC25RunScenario(t *testing.T, lines []string) (out []string) {
 		}
 		opts := SharedPollChannelOptions{Mode: mode, RefreshInterval: 1000 * time.Hour, RefreshBatchSize: 100, MaxKeysPerConnection: 100,
 			KeepLatestData: kv["keep"] == "1", ChannelShutdownDelay: 1000 * time.Hour}
+		s := &verifC25Scn{conns: map[string]*verifC25Conn{}}
 		node, err := New(Config{LogLevel: LogLevelNone, SharedPoll: SharedPollConfig{
-			GetSharedPollChannelOptions: func(string) (SharedPollChannelOptions, bool) { return opts, true }}})
+			GetSharedPollChannelOptions: func(string) (SharedPollChannelOptions, bool) { return opts, true }},
+			GetChannelBatchConfig: func(string) ChannelBatchConfig {
+				if s.armed {
+					s.armed = false
+					s.parked = true
+					<-s.gateCh
+				}
+				return ChannelBatchConfig{}
+			}})
 		if err != nil {
 			out = append(out, "harness-error new-node")
 			return
@@ -487,18 +576,34 @@ func verifC25RunScenario(t *testing.T, lines []string) (out []string) {
 			c.OnSubscribe(func(e SubscribeEvent, cb SubscribeCallback) {
 				cb(SubscribeReply{Options: SubscribeOptions{AllowedDeltaTypes: []DeltaType{DeltaTypeFossil}}}, nil)
 			})
-			c.OnTrack(func(e TrackEvent, cb TrackCallback) { cb(TrackReply{}, nil) })
+			c.OnTrack(func(e TrackEvent, cb TrackCallback) {
+				if s.deferTrack {
+					s.deferTrack = false
+					s.trackCbs = append(s.trackCbs, cb)
+					return
+				}
+				cb(TrackReply{}, nil)
+			})
 			c.OnSubRefresh(func(e SubRefreshEvent, cb SubRefreshCallback) { cb(SubRefreshReply{}, nil) })
 		})
 		if err := node.Run(); err != nil {
 			out = append(out, "harness-error run")
 			return
 		}
-		s := &verifC25Scn{node: node, conns: map[string]*verifC25Conn{}}
+		s.node = node
 		out = append(out, "ok")
 		for _, l := range lines[1:] {
 			out = append(out, s.op(strings.Fields(l)))
 		}
+		if s.parked {
+			close(s.gateCh)
+			<-s.bgDone
+			s.parked = false
+		}
+		for _, cb := range s.trackCbs {
+			cb(TrackReply{}, nil)
+		}
+		s.trackCbs = nil
 		for _, name := range s.order {
 			_ = s.conns[name].closeFn()
 		}
